@@ -55,6 +55,8 @@ class Termizer:
         self.mut_locals = set()
         self.inline = inline  # optional Inliner
         self.keep_narrowing = False
+        self.closures = {}     # local id -> Closure node (for calls of local closures)
+        self._cdepth = 0
 
     def fresh(self, n):
         return ("unk", "%s@%s" % (n.get("k"), n.get("s", next(_unk_counter))))
@@ -111,6 +113,28 @@ class Termizer:
             cn = cname(F, n)
             if cn is None:
                 if k == "Call":
+                    f = n["f"]
+                    if f.get("k") == "Path" and f.get("res") == "local" and f.get("id") in self.closures and self._cdepth < 3:
+                        c = self.closures[f["id"]]
+                        params = c.get("params", [])
+                        if len(params) == len(n["args"]) and all(p.get("k") == "PBind" for p in params):
+                            saved = {}
+                            for p, a in zip(params, n["args"]):
+                                saved[p["id"]] = self.env.get(p["id"])
+                                self.env[p["id"]] = self.term(a)
+                            self._cdepth += 1
+                            try:
+                                body = c["body"]
+                                t = self._closure_body_term(body)
+                            finally:
+                                self._cdepth -= 1
+                                for pid, old in saved.items():
+                                    if old is None:
+                                        self.env.pop(pid, None)
+                                    else:
+                                        self.env[pid] = old
+                            if t is not None:
+                                return t
                     return ("callv", self.term(n["f"]), tuple(self.term(a) for a in n["args"]))
                 return self.fresh(n)
             args = tuple(self.term(a) for a in call_args(n))
@@ -152,6 +176,30 @@ class Termizer:
             nm = strip_generics(F.defpath(n) or "?")
             return ("struct", nm, tuple((f["name"], self.term(f["e"])) for f in n["fields"]))
         return self.fresh(n)
+
+    def _closure_body_term(self, body):
+        """Term of a simple closure body: leading immutable lets followed by a tail expression."""
+        if body.get("k") != "Block":
+            return self.term(body)
+        bound = []
+        try:
+            for st in body["stmts"]:
+                if st.get("k") == "LetStmt" and st["pat"].get("k") == "PBind" and "init" in st and "els" not in st:
+                    bound.append((st["pat"]["id"], self.env.get(st["pat"]["id"])))
+                    self.env[st["pat"]["id"]] = self.term(st["init"])
+                elif _debug_stmt(self.F, st):
+                    continue
+                else:
+                    return None
+            if "expr" not in body:
+                return None
+            return self.term(body["expr"])
+        finally:
+            for pid, old in bound:
+                if old is None:
+                    self.env.pop(pid, None)
+                else:
+                    self.env[pid] = old
 
     def mk_call(self, cn, args, n):
         # transparent conversions
@@ -938,6 +986,8 @@ class Walker:
             return False
         if k == "LetStmt":
             if "init" in n:
+                if n["init"].get("k") == "Closure" and n["pat"].get("k") == "PBind":
+                    self.T.closures[n["pat"]["id"]] = n["init"]
                 if self.walk(n["init"], K):
                     return True
                 term = self.T.term(n["init"])
